@@ -169,6 +169,11 @@ def drives(quick):
         dict(name="4term", dev="cross4", cur={"source": 5.0, "drain": -2.0, "top": -3.5, "bottom": 0.5}, A=0.5, opts=dict(dt_init=1e-2, adaptive=False)),
         dict(name="hole_ramp_timedep", dev="bar_hole", cur="timedep", A=ramp, opts=dict(dt_init=5e-3, adaptive=False)),
         dict(name="screening", dev="bar", cur={"source": 3.0, "drain": -3.0}, A=0.2, opts=dict(dt_init=1e-2, adaptive=False, include_screening=True, screening_tolerance=1e-2)),
+        # terminals that carry no current / are not named at all / keep a constant current while others vary
+        dict(name="3term_one_idle", dev="bar3", cur={"source": 3.0, "drain": -3.0, "top": 0.0}, A=0.2, opts=dict(dt_init=1e-2, adaptive=False)),
+        dict(name="3term_one_unnamed", dev="bar3", cur={"source": 2.0, "drain": -2.0}, A=0.0, opts=dict(dt_init=1e-2, adaptive=False)),
+        dict(name="4term_two_idle", dev="cross4", cur={"top": 1.5, "bottom": -1.5, "source": 0.0, "drain": 0.0}, A=0.3, opts=dict(dt_init=1e-2, adaptive=False)),
+        dict(name="4term_timedep_partial", dev="cross4", cur="timedep4", A=0.1, opts=dict(dt_init=5e-3, adaptive=False)),
     ]
     if not quick:
         d += [
@@ -184,6 +189,11 @@ def timedep_currents(t):
     return {"source": i, "drain": -i}
 
 
+def timedep4_currents(t):
+    i = 3.0 * np.cos(9.0 * t)
+    return {"source": i, "drain": -i, "top": 1.0, "bottom": -1.0}
+
+
 def run_level(ctx, stop_first=False):
     from tdgl.finite_volume.operators import build_divergence
 
@@ -191,7 +201,7 @@ def run_level(ctx, stop_first=False):
     for dr in drives(ctx.quick):
         dev = zoo.make_device(dr["dev"], ctx.rng, max_edge_length=1.0)
         D = build_divergence(dev.mesh)
-        cur = timedep_currents if dr["cur"] == "timedep" else dr["cur"]
+        cur = timedep_currents if dr["cur"] == "timedep" else (timedep4_currents if dr["cur"] == "timedep4" else dr["cur"])
         cu = dr["opts"].get("current_units", "uA")
         out = os.path.join(str(ctx.work), f"{dr['name']}.h5")
         opts = runs.options(solve_time=0.12, save_every=3, output_file=out, progress_interval=10**9, **dr["opts"])
